@@ -84,7 +84,10 @@ def check(nodes, flat):
 def search(payload):
     rnd = random.Random(payload.get('seed', 0))
     fixed = [([[(0, 0), (0, 0), (2, -1)], [(10, 0), (8, -4), (8, -4)]], 3), ([[(1, 1)] * 3, [(1, 1)] * 3], 0.5),
-             ([[(0, 0), (0, 0), (0, 10)], [(10, 10), (10, 0), (10, 0)]], 0.1), ([[(0, 0), (0, 0), (5, 5)]], 1)]
+             ([[(0, 0), (0, 0), (0, 10)], [(10, 10), (10, 0), (10, 0)]], 0.1), ([[(0, 0), (0, 0), (5, 5)]], 1),
+             # nearly flat curves with a very small flatness (a floor on `flat` would leave them unsplit)
+             ([[(0, 0), (0, 0), (1, F(4, 10000))], [(2, F(4, 10000)), (3, 0), (3, 0)]], 0.00003),
+             ([[(0, 0), (0, 0), (1, F(3, 1000000))], [(2, F(3, 1000000)), (3, 0), (3, 0)]], 0.0000002)]
     tried = distinct = 0
     cases = list(fixed)
     for _ in range(250):
@@ -99,4 +102,4 @@ def search(payload):
         if o:
             return {'found': True, 'input': [nodes, flat], 'observed': o, 'expected': e, 'tried': tried}
         distinct += 1
-    return {'found': False, 'tried': tried, 'distinct': distinct, 'bound': '4 fixed + 250 seeded random node lists (1..4 nodes, integer control points in [-8,8], flat in {0.05,0.3,1,4}), growth cap 20000 nodes'}
+    return {'found': False, 'tried': tried, 'distinct': distinct, 'bound': '6 fixed + 250 seeded random node lists (1..4 nodes, integer control points in [-8,8], flat in {0.05,0.3,1,4}; two nearly flat curves with flat 3e-5 and 2e-7), growth cap 20000 nodes'}
